@@ -39,8 +39,15 @@ def map_item(m, kind, rng):
     rng.shuffle(keys)
     for k in keys:
         v = m[k]
-        items.append((k, ('i', v) if kind == 'si' else ('s', v) if kind == 'ss' else ('a', [('i', x) for x in v])))
+        if v is None:
+            items.append((k, ('n',)))          # null: the value is reported as not loaded
+        else:
+            items.append((k, ('i', v) if kind == 'si' else ('s', v) if kind == 'ss' else ('a', [('i', x) for x in v])))
     return ('o', items)
+
+
+def default_of(kind):
+    return 0 if kind == 'si' else '' if kind == 'ss' else []
 
 
 def map_desc(m, kind):
@@ -154,13 +161,21 @@ def run(tier):
         prior, doc = rand_map(rng, kind, arch), rand_map(rng, kind, arch)
         if arch == 'xml' and (not prior or not doc):
             continue
+        if arch != 'xml' and rng.random() < 0.3:
+            for kk in list(doc):
+                if rng.random() < 0.3:
+                    doc[kk] = None                     # a null value: not loaded; an existing entry keeps its content, a new one is value-initialised
         if mode == 'clean':
-            want = dict(doc)
+            want = {kk: (vv if vv is not None else default_of(kind)) for kk, vv in doc.items()}
         elif mode == 'only':
-            want = {kk: doc.get(kk, prior[kk]) for kk in prior}
+            want = {kk: (doc[kk] if doc.get(kk) is not None else prior[kk]) for kk in prior}
         else:
             want = dict(prior)
-            want.update(doc)
+            for kk, vv in doc.items():
+                if vv is not None:
+                    want[kk] = vv
+                elif kk not in want:
+                    want[kk] = default_of(kind)
         cid = 'm%d' % i
         src = dict(src='mem') if rng.random() < 0.6 else dict(src='slow', step=rng.choice([1, 7, 256]))
         line = 'op=mapmode id=%s arch=%s kind=%s mode=%s prior=%s doc=%s %s' % (cid, arch, kind, mode, render_root(arch, map_item(prior, kind, rng), rng).hex(),
